@@ -1904,8 +1904,27 @@ func c13GenerationsConcurrent(m *vk.Monitor) {
 			}()
 		}
 		close(start)
-		wg.Wait()
 		hist = append(hist, fmt.Sprintf("race: %d x GetOrCreate(key%d, gen1) || track=%v || close=%d", adopters, k, withTrack, closeHow))
+		joined := make(chan struct{})
+		go func() { wg.Wait(); close(joined) }()
+		select {
+		case <-joined:
+		case <-time.After(c13Watchdog):
+			// bounded progress, decided on the goroutine dump rather than on the time alone: owners
+			// parked inside the tracker's Retain/Forget while nobody is between BeginRelease and
+			// FinalizeRelease (no kernel delete in flight) can never be woken
+			dump := c13AllStacks()
+			parked := strings.Count(dump, "udpConnStateTracker).Retain(") + strings.Count(dump, "udpConnStateTracker).Forget(")
+			inflight := strings.Count(dump, "ReleaseUdpConnStateTuples(") + strings.Count(dump, "udpConnStateTracker).FinalizeRelease(") + strings.Count(dump, "BpfMapBatchDelete(")
+			if parked > 0 && inflight == 0 {
+				m.Violation("tuple/retain-parked-after-deletion-finalised/handover",
+					fmt.Sprintf("%d goroutine(s) of the hand-over race are parked inside udpConnStateTracker.Retain/Forget for >%v although no kernel delete is in flight: they can never be woken", parked, c13Watchdog),
+					map[string]any{"round": round, "history": hist, "shared_tracker": shared})
+			} else {
+				m.Inconclusive("hand-over race round %d did not finish within %v (parked in Retain/Forget=%d, deletes in flight=%d)", round, c13Watchdog, parked, inflight)
+			}
+			return // the goroutines of this round are lost
+		}
 		m.Eval(1)
 		m.Count("c_conc_rounds", 1)
 		// ---- quiescent point 1
